@@ -75,9 +75,9 @@ CLAIMED = {
          "Exploration by runtime monitoring: every segment emitted by both sockets of the two-endpoint simulation (15 000 quick / 600 000 thorough executions) is judged by an independent monitor: data within the highest right edge ever delivered (one-byte probes excepted), payload+options within announced MSS (clamped at 48, 536 if absent) and MTU, payload equal to the application's bytes also when retransmitted, no gap in new data, FIN exactly at the end of the written stream, SYN window unscaled, later windows within the buffer under the negotiated shift.",
          "Trusted: harness/src/mon/tcp_sender.rs and the independent TCP parser. 'Learned window' is read as the maximum right edge ever delivered (weakest sound reading). Peers with arbitrary MSS / window-scale announcements are driven by the scripted-peer part when present (see evidence parts).",
          "DESIGN.md §4 C05"),
- "C13": ("runtime monitor: early probe polls strictly before the promised deadline must transmit nothing (S); polls without rx/tx must leave a strictly later deadline (N); attached to the simulation drivers",
-         "Exploration by runtime monitoring: after regular polls of the two-endpoint TCP simulation (all TCP timer kinds: retransmit, delayed ACK, persist, TIME-WAIT, window update) an extra poll at a random instant strictly inside (now, deadline) - with no frame and no socket call in between - must transmit nothing, and a poll that neither received nor transmitted must not leave a deadline <= now; more than 40 000 frames in one poll is reported as a poll that does not return. IGMP/MLD reports are ignored as the statement says.",
-         "Trusted: the probe placement logic in harness/src/sim/tcpsim.rs (horizon = next scheduled event). Only the drivers listed in the evidence file are covered; pending-work classes not driven are not judged.",
+ "C13": ("runtime monitor: extra polls at instants before the deadline promised by poll_at must transmit nothing (S); polls without rx/tx must leave a strictly later deadline (N); riding on every simulation driver",
+         "Exploration by runtime monitoring: (S) between an answer of Interface::poll_at and the next frame reception or socket/interface call, extra polls at random instants in [now, deadline) (first, last, interior; any instant when the answer is None) and the drivers' own early polls must transmit nothing; (N) a poll that neither received nor transmitted on a device that hands out tokens must leave poll_at None or strictly later. Drivers: the two-endpoint TCP simulation (all TCP timers) and - through a probe inside the simulated host that tracks every mutable access to the socket set and the interface - datagram sockets with unresolved neighbors, egress fragmentation, neighbor-discovery back-off, DHCP, DNS/mDNS and the scenario families with SLAAC on/off with and without router advertisements: ~6*10^7 evaluations quick. IGMP/MLD reports are ignored as the statement says.",
+         "Trusted: the probe placement logic (harness/src/sim/tcpsim.rs, harness/src/sim/hostprobe.rs, Host::poll in harness/src/sim/mod.rs). Only the drivers listed in the evidence file are covered; intervals in which the driver touched a socket are not judged.",
          "DESIGN.md §4 C13"),
  "C14": ("runtime monitor: executable queue model compared with the real RingBuffer/PacketBuffer after every operation; reachable-state closure + random programs",
          "Exploration by runtime monitoring: every operation with every argument is applied from every reachable (read pointer, length, staged-set) state of small buffers (closure, capacities 0..5 quick / 0..9 thorough) and in 40 000 (quick) / 4 000 000 (thorough) random programs on capacities up to 4096; each step's return value, slice length/content and every observer is compared with a VecDeque model using unique element ids. Held on what was executed, not a proof.",
